@@ -119,3 +119,45 @@ Lemma size_lor1 v : N.size (N.lor v 1) = N.succ (N.log2 (N.lor v 1)).
 Proof. destruct (N.lor v 1) eqn:E; [|apply N.size_log2; discriminate].
   exfalso. assert (N.testbit (N.lor v 1) 0 = true) by (rewrite N.lor_spec; cbn; apply orb_true_r).
   rewrite E in H. discriminate. Qed.
+
+(* ------------------------------------------------------------------ SizeOfVarint *)
+Lemma log2_lor1 v : N.log2 (N.lor v 1) = N.log2 v.
+Proof. rewrite N.log2_lor. change (N.log2 1) with 0. lia. Qed.
+
+Lemma sov_log2 v : sov v = 1 + N.log2 v / 7.
+Proof.
+  unfold sov. rewrite size_lor1, log2_lor1.
+  replace (N.succ (N.log2 v) + 6) with (N.log2 v + 1 * 7) by lia.
+  rewrite N.div_add by lia. lia.
+Qed.
+
+Lemma log2_small v : v < two7 -> N.log2 v / 7 = 0.
+Proof.
+  unfold two7. intros H. apply N.div_small.
+  destruct (N.eq_dec v 0) as [->|Hz]; [cbn; lia|].
+  apply N.log2_lt_pow2; [lia|]. change (2 ^ 7) with 128. exact H.
+Qed.
+
+Lemma log2_div128 v : two7 <= v -> N.log2 v / 7 = 1 + N.log2 (v / two7) / 7.
+Proof.
+  unfold two7. intros H.
+  change 128 with (2 ^ 7). rewrite <- N.shiftr_div_pow2, N.log2_shiftr.
+  assert (7 <= N.log2 v) by (apply N.log2_le_pow2; [lia|exact H]).
+  replace (N.log2 v) with ((N.log2 v - 7) + 1 * 7) at 1 by lia.
+  rewrite N.div_add by lia. lia.
+Qed.
+
+Lemma size_varint_f_log2 f : forall v, digits_le f v -> size_varint_f f v = 1 + N.log2 v / 7.
+Proof.
+  induction f; intros v Hd; cbn [size_varint_f digits_le] in *.
+  - rewrite log2_small by exact Hd. reflexivity.
+  - destruct (N.ltb_spec v two7) as [H|H].
+    + rewrite log2_small by exact H. reflexivity.
+    + rewrite (IHf _ Hd), (log2_div128 v H). lia.
+Qed.
+
+(* protohelpers.SizeOfVarint's closed formula is the number of bytes EncodeVarint writes *)
+Theorem sov_is_size_varint v : v < two64 -> sov v = size_varint v.
+Proof.
+  intros H. unfold size_varint. rewrite (size_varint_f_log2 9 v (digits_le_64 v H)). apply sov_log2.
+Qed.
